@@ -75,7 +75,8 @@ def nt_doc(style, rnd):
             if isinstance(x, URIRef):
                 u = str(x)
                 if style == 1:
-                    u = u.replace("s", "\\u0073", 1)
+                    # both escape widths mixed in one IRI
+                    u = u.replace("s", "\\u0073", 1).replace("e", "\\U00000065", 1)
                 return "<" + u + ">"
             q = '"' + esc(str(x), style) + '"'
             if x.language:
@@ -111,14 +112,14 @@ break\ttab""", 'café \U0001F600', "hallo"@de ;
         return '''PREFIX ex: <%s>
 BASE <http://example.org/dir/>
 PREFIX xsd: <http://www.w3.org/2001/XMLSchema#>
-<%ss> <http://www.w3.org/1999/02/22-rdf-syntax-ns#type> ex:C .
+<%s\\u0023\\U00000073> <http://www.w3.org/1999/02/22-rdf-syntax-ns#type> ex:C .
 ex:s ex:p 'plain' , "quote \\" and \\\\ backslash" , "line\\nbreak\\ttab" , "caf\\u00E9 \\U0001F600" , 'hallo'@de .
 ex:s ex:q "5"^^xsd:integer , "-1.5"^^xsd:decimal , "1.0E3"^^xsd:double , "true"^^xsd:boolean , <other> .
 <other> ex:p _:x .
 _:x ex:p \'\'\'in bnode\'\'\' ; ex:q _:y .
 _:y ex:p ex:with.dot .
 <%sa%%2Cb> ex:p ex:x .
-''' % (NS, NS, NS)
+''' % (NS, NS[:-1], NS)
     if style == 2:      # everything on few lines, comments, odd whitespace, prefix redefinition, trailing ; allowed
         return '''# leading comment
 @prefix p: <http://example.org/> . @prefix p: <%s> .
@@ -432,4 +433,92 @@ _:c { _:c :p "x" . }
         return msg.split(":")[0]
 
 
-SUITES = {"spellings": Spellings(), "strict-output": StrictOutput(), "lists-and-graph-blocks": ListsAndGraphBlocks()}
+_ECHAR = {"t": "\t", "b": "\b", "n": "\n", "r": "\r", "f": "\f", '"': '"', "'": "'", "\\": "\\"}
+_NT_LIT_LINE = re.compile(r'^<urn:s>[ \t]+<urn:p>[ \t]+"((?:[^\x22\x5C\x0A\x0D]|\\[tbnrf"\'\\]|%s)*)"(\^\^<[^>]*>|@[a-z]+)?[ \t]*\.[ \t]*$' % UCHAR)
+
+
+def strict_unescape(body):
+    """the W3C grammar's reading of a STRING_LITERAL_QUOTE body (already matched against the grammar)"""
+    out, i = [], 0
+    while i < len(body):
+        x = body[i]
+        if x == "\\":
+            y = body[i + 1]
+            if y in _ECHAR:
+                out.append(_ECHAR[y]); i += 2
+            elif y == "u":
+                out.append(chr(int(body[i + 2:i + 6], 16))); i += 6
+            else:
+                out.append(chr(int(body[i + 2:i + 10], 16))); i += 10
+        else:
+            out.append(x); i += 1
+    return "".join(out)
+
+
+class EscapeSweep(Suite):
+    """every Unicode scalar value inside a literal: written by the N-Triples / N-Quads serializers
+    and by Literal.n3(), read by an independent strict reader of the W3C grammar"""
+    chunk = 2
+
+    def bound(self, tier):
+        return ("EVERY Unicode scalar value (0..0x10FFFF minus surrogates, both tiers) "
+                "as 'a<c>b' in a plain, a language-tagged and a typed literal: nt / nt11 / nquads output lines "
+                "match the W3C grammar and read back (independent reader) as the same string; Literal.n3() likewise")
+
+    def enumerate(self, tier):
+        step = 1
+        for lo in range(0, 0x110000, 0x1000):
+            yield {"lo": lo, "hi": lo + 0x1000, "step": 1 if lo < 0x10000 else step}
+
+    def check(self, case):
+        from rdflib import Graph, Literal, URIRef
+        from rdflib.namespace import XSD
+        s_, p_ = URIRef("urn:s"), URIRef("urn:p")
+        cps = [c for c in range(case["lo"], case["hi"], case["step"]) if not 0xD800 <= c <= 0xDFFF]
+        if not cps:
+            return None
+        for kind in ("plain", "lang", "typed"):
+            g = Graph()
+            want = set()
+            for c in cps:
+                txt = "a" + chr(c) + "b"
+                lit = Literal(txt) if kind == "plain" else Literal(txt, lang="en") if kind == "lang" else \
+                    Literal(txt, datatype=URIRef("urn:dt"))
+                g.add((s_, p_, lit))
+                want.add(txt)
+                n3 = Literal(txt).n3()
+                if "\n" not in txt:
+                    m = re.fullmatch(STRING, n3)
+                    if not m or strict_unescape(n3[1:-1]) != txt:
+                        return f"n3-escape: Literal({txt!r}).n3() = {n3!r} does not read back as the string (U+{c:04X})"
+            for fmt, enc in (("nt", "utf-8"), ("nt11", "utf-8"), ("nquads", "utf-8")):
+                try:
+                    src = g
+                    if fmt == "nquads":
+                        from rdflib import Dataset
+                        src = Dataset()
+                        for t in g:
+                            src.add(t)
+                    data = src.serialize(format=fmt, encoding=enc).decode(enc)
+                except Exception as e:  # noqa
+                    return f"serialize-raises[{fmt}/{enc}]: {type(e).__name__}: {str(e)[:100]} (code points U+{cps[0]:04X}..)"
+                got = set()
+                for line in data.split("\n"):
+                    if not line:
+                        continue
+                    m = _NT_LIT_LINE.match(line)
+                    if not m:
+                        return f"escape-not-in-grammar[{fmt}/{enc}]: line {line[:80]!r} does not match the W3C grammar"
+                    got.add(strict_unescape(m.group(1)))
+                if got != want:
+                    bad = sorted(want - got)[:2]
+                    return (f"escape-changes-string[{fmt}/{enc}]: {kind} literals {bad!r} (U+{ord(bad[0][1]):04X}) are written "
+                            f"so that the grammar reads {sorted(got - want)[:2]!r}")
+        return None
+
+    def classify(self, case, msg):
+        return msg.split(":")[0]
+
+
+SUITES = {"spellings": Spellings(), "strict-output": StrictOutput(), "lists-and-graph-blocks": ListsAndGraphBlocks(),
+          "escape-sweep": EscapeSweep()}
